@@ -1117,14 +1117,11 @@ namespace avel {
         _mm_maskstore_pd(ptr, mask, decay(v));
 
         #elif defined(AVEL_SSE2)
-        auto table_offset = masks128_table.size() / 2 - avel::min(vec2x64f::width, n) * sizeof(double);
-        auto mask = _mm_loadu_si128(reinterpret_cast<const __m128i*>(masks128_table.data() + table_offset));
-
-        _mm_maskmoveu_si128(
-            _mm_castpd_si128(decay(v)),
-            mask,
-            reinterpret_cast<char*>(ptr)
-        );
+        // MASKMOVDQU may fault on masked-off bytes lying in an inaccessible
+        // page, so the vector is spilled and only the first n lanes copied
+        alignas(16) double lanes[vec2x64f::width];
+        _mm_store_pd(lanes, decay(v));
+        std::memcpy(ptr, lanes, avel::min(vec2x64f::width, n) * sizeof(double));
 
         #endif
 
